@@ -26,6 +26,7 @@ type PropConfig struct {
 	Extra    []string `json:"extra"` // extra engines: "layout", "forkjoin:<func>"
 	Assume   []string `json:"assumptions"`
 	Bounded  []string `json:"bounded"`
+	Replays  []CustomReplay `json:"replays"`
 }
 
 func loadProps() map[string]*PropConfig {
@@ -246,6 +247,7 @@ func cmdDump(args []string) {
 		fatal(2, "%v", err)
 	}
 	extraEngines = pc.Extra
+	customReplays = pc.Replays
 	units, problems := generateUnits(P, *prop, *only)
 	for _, p := range problems {
 		fmt.Println("PROBLEM:", p)
@@ -365,6 +367,7 @@ func cmdCheck(args []string) {
 	}
 	tLoad := time.Since(start).Seconds()
 	extraEngines = pc.Extra
+	customReplays = pc.Replays
 	units, problems := generateUnits(P, id, "")
 	tGen := time.Since(start).Seconds() - tLoad
 	extraRuns, extraNotes := runExtraEngines(P, id, pc)
